@@ -41,6 +41,7 @@ def h_de(P, n, d=1, dither=False, shade=False):
     base = F.n_calls()
     if shade:
         eng = SHADE(memory_size=2, population_size=n)
+        _stub_shade(P, eng, n, bounds)
     else:
         eng = DE(use_dither=dither, crossover_probability=0.9, f=0.8)
     out = eng.run(parents)
@@ -53,6 +54,35 @@ def h_de(P, n, d=1, dither=False, shade=False):
     P.oblige("one_to_one.kth_best", _kth_best_not_worse(P, [o.fitness for o in out], [p.fitness for p in parents], maximize))
     for j, o in enumerate(out):
         P.observe(f"out{j}.f", o.fitness)
+
+
+def _stub_shade(P, eng, n, bounds):
+    """SHADE's replacement / archive logic is the subject; its parameter sampling, the current-to-pbest donor construction and the
+    memory adaptation are replaced by contracts (arbitrary in-range parameters, arbitrary in-box donors with invalidated fitness)."""
+    import numpy as np
+    from pyhms.core.population import Population
+    from symx.core import land
+
+    P.note_stub("SHADE._get_params: arbitrary cr in [0,1], f in (0,1], p = 0.5; SHADE._mutation: arbitrary in-box donors (fitness NaN where the "
+                "genome changed); SHADE._update_memory: no-op (parameter adaptation not modelled)")
+
+    def get_params():
+        cr = P.floats(P._n("cr"), (n,), finite=True)
+        f = P.floats(P._n("f"), (n,), finite=True)
+        for i in range(n):
+            P.assume(land(cr[i] >= 0.0, cr[i] <= 1.0, f[i] > 0.0, f[i] <= 1.0))
+        return cr, f, np.full(n, 0.5)
+
+    def mutation(population, archive, f, p):
+        new = P.floats(P._n("donor"), np.shape(population.genomes), finite=True)
+        for idx in np.ndindex(*np.shape(new)):
+            P.assume(land(new[idx] >= bounds[idx[-1]][0], new[idx] <= bounds[idx[-1]][1]))
+        fit = P.np.where(P.np.all(new == population.genomes, axis=1), population.fitnesses, np.nan)
+        return Population(new, fit, population.problem)
+
+    eng._get_params = get_params
+    eng._mutation = mutation
+    eng._update_memory = lambda *a, **k: None
 
 
 def _kth_best_not_worse(P, out_f, par_f, maximize):
@@ -97,6 +127,8 @@ def cases(tier):
                            weight=n * n, argsort_mode="fork-ties" if (n == 3 and k == 1) else "fork"))
     cs.append(dict(name="de.n4", fn=h_de, params=dict(n=4), profile="fp", budget_s=1500, weight=20))
     cs.append(dict(name="de.dither.n4", fn=h_de, params=dict(n=4, dither=True), profile="fp", budget_s=1500, weight=20))
+    cs.append(dict(name="shade.n4", fn=h_de, params=dict(n=4, shade=True), profile="fp", budget_s=1500, weight=20, portfolio=True, separate=True,
+                   oblig_timeout_s=120, cores=2))
     # the real engines (SEA, DE, SHADE, CMA-ES) along real histories, both directions, plateau objective (ties) included
     from .trun import run_cases
     from .tstep import tree_cases
